@@ -70,6 +70,7 @@ func checkC06(c *Ctx, r *Report) {
 	runEDIV(c, r, reach, "the decode entry points")
 	runETableIdx(c, r, reach, "the decode entry points", 1)
 	runECONSTIDX(c, r, reach, roots, "the decode entry points", 1)
+	runENEXTIDX(c, r, reach, "the decode entry points", 1)
 	checkSquareGuard(c, r)
 	checkAztecReadCode(c, r, "M-READCODE")
 	checkGuardOrder(c, r, reach)
